@@ -175,7 +175,33 @@ func runC05(c *an.Ctx) {
 		assigned := false
 		an.Instrs(guard, func(in ssa.Instruction) {
 			if st, ok := in.(*ssa.Store); ok {
-				if _, isFV := st.Addr.(*ssa.FreeVar); isFV && an.IsErrorType(st.Val.Type()) && gt.ErrShape(st.Val) != "nil" {
+				// the caller's error result: the captured variable itself, or a *error handed to a named
+				// guard function (a parameter, or — once that function is inlined into a literal — the
+				// captured copy of the pointer)
+				outer := false
+				switch a := st.Addr.(type) {
+				case *ssa.FreeVar:
+					outer = true
+				case *ssa.Parameter:
+					outer = true
+				case *ssa.UnOp:
+					switch x := a.X.(type) {
+					case *ssa.FreeVar:
+						outer = true
+					case *ssa.Alloc:
+						for _, s2 := range an.AllocStores(x) {
+							if ld, isLd := s2.Val.(*ssa.UnOp); isLd {
+								if _, isFV := ld.X.(*ssa.FreeVar); isFV {
+									outer = true
+								}
+							}
+							if _, isFV := s2.Val.(*ssa.FreeVar); isFV {
+								outer = true
+							}
+						}
+					}
+				}
+				if outer && an.IsErrorType(st.Val.Type()) && gt.ErrShape(st.Val) != "nil" {
 					fs := gf.AtInstr(st)
 					for _, f := range fs {
 						if f.Op == "EQ" && !f.Pos && (f.A == "nil" || f.B == "nil") {
